@@ -10,7 +10,12 @@ async fn verif_native_complete_all_requests_bounded() {
     let ids = [0u64, 1, 2, u64::MAX];
     let mut evaluations = 0;
     for mask in 0u32..(1 << ids.len()) {
-        let chosen: Vec<u64> = ids.iter().enumerate().filter(|(i, _)| mask & (1 << i) != 0).map(|(_, v)| *v).collect();
+        let chosen: Vec<u64> = ids
+            .iter()
+            .enumerate()
+            .filter(|(i, _)| mask & (1 << i) != 0)
+            .map(|(_, v)| *v)
+            .collect();
         if chosen.len() > 3 {
             continue;
         }
@@ -18,16 +23,24 @@ async fn verif_native_complete_all_requests_bounded() {
         let mut rxs = vec![];
         for id in &chosen {
             let (tx, rx) = oneshot::channel();
-            t.insert_request(*id, context::current(), Span::none(), tx).unwrap();
+            t.insert_request(*id, context::current(), Span::none(), tx)
+                .unwrap();
             rxs.push(rx);
         }
         let n = t.complete_all_requests(|| Err("channel")).count();
         evaluations += 1;
         assert_eq!(n, chosen.len(), "one span per in-flight request");
-        assert!(t.is_empty() && t.len() == 0, "C09/C11: table empty afterwards");
+        assert!(
+            t.is_empty() && t.len() == 0,
+            "C09/C11: table empty afterwards"
+        );
         assert!(t.deadlines.is_empty(), "C11: no timer left");
         for mut rx in rxs {
-            assert_eq!(rx.try_recv(), Ok(Err("channel")), "C09: every outstanding call is delivered the error");
+            assert_eq!(
+                rx.try_recv(),
+                Ok(Err("channel")),
+                "C09: every outstanding call is delivered the error"
+            );
         }
     }
     println!("VERIF-BOUNDED complete_all evaluations={evaluations} bound=tables of <=3 entries over ids {{0,1,2,u64::MAX}}");
